@@ -9,6 +9,16 @@ TRUST=("go/packages + go/ssa construction; the vendored x/tools interpreter's co
        "mathematical integers (no overflow); cvc5 1.0 / z3 verdicts (any unknown/error makes the run inconclusive, exit 2)")
 
 claimed={
+ "C15":{"category":"model_checking",
+   "text":"GSX executes linter.ParseGoVersion, GoVersion.GreaterOrEqual and Context.SetGoVersion from SSA with the version string / components as solver variables: accepted strings are exactly (go)?<int>.<int> or empty (regular-language oracle), components are read numerically and in order, comparison is numeric lexicographic order with unset = newest; all assertions discharged unsat by cvc5/z3 within |version|<=8",
+   "design_ref":"DESIGN.md 3 C15 (a)",
+   "technique":"symbolic execution of go/ssa + SMT (strings, ints) bounded model checking, native replay",
+   "note":TRUST+"; rule filters and the hand-over of the version to the rule engine are covered only as far as the evidence file lists harnesses"},
+ "C06":{"category":"model_checking",
+   "text":"GSX executes the three copies of the selection rule ((*program).initCheckers + bindDefaultEnabledList in cmd/go-critic and cmd/gocritic, analyzer.filterCheckersList/newGocritic) from SSA with symbolic tag sets, enable/disable keys and enableAll, against one executable statement of the algebra; constructor calls are observed through checkers registered with the real AddChecker API; empty selection must be an error in all three",
+   "design_ref":"DESIGN.md 3 C06",
+   "technique":"symbolic execution of go/ssa + SMT (strings) bounded model checking, native replay",
+   "note":TRUST+"; bounds: <=2 enable and <=2 disable keys of <=5 bytes (analyzer quick: 1+1), <=2 symbolic tags on the symbolic checker plus one concrete checker; defaults compared under the repo's TestTags invariant"},
  "C16":{"category":"model_checking",
    "text":"GSX executes the real shortenLocation (both CLI copies) from SSA with loc/workDir/GOPATH/GOROOT as solver string variables; every path's assertion 'printed location resolves to the file' is discharged by cvc5 (unsat) within |loc|<=10, roots<=5; counterexamples are replayed natively through go test -overlay before being reported",
    "design_ref":"DESIGN.md 3 C16",
